@@ -204,6 +204,11 @@ class JsonSchemaGenerator:
                 constrains_map = mp
                 break
         for constraint, value, validator in t.__validators__:
+            if constraint in ("length", "min_length", "max_length") and isinstance(origin, type) \
+                    and issubclass(origin, (bytes, bytearray, memoryview)):
+                # counted in bytes by the parser; the published value is the decoded text,
+                # whose minLength / maxLength count characters
+                continue
             constraint_name = constrains_map.get(constraint, constraint)
             if isinstance(value, EnumMeta):
                 # enum = <Enum class>
